@@ -32,6 +32,14 @@ func newCache[H Hash]() cache[H] {
 }
 
 func (c *cache[H]) getHeight(h uint32) *inbox[H] {
+	// Messages for heights below h can never be used, drop them (the node
+	// could have skipped these heights if blocks came from elsewhere).
+	for old := range c.mail {
+		if old < h {
+			delete(c.mail, old)
+		}
+	}
+
 	if m, ok := c.mail[h]; ok {
 		delete(c.mail, h)
 		return m
